@@ -264,12 +264,43 @@ def r4_send(L, repo, tier):
     # ... and a message that did encode IS sent: once gen_msg() has returned, every path to the end of send_msg() passes
     # the send (no size / state condition may withhold a valid message)
     send_nodes = [cfg.node_of(s_) for s_ in sends]
+    send_ids = {n_.id for n_ in send_nodes}
     for g in gens:
         gn = cfg.node_of(g)
-        r_ = cfg.reach(gn, skip_nodes=send_nodes, labels_skip=("exc",))
+        # names that hold what gen_msg() returned (the encoded datagram: never None, R3): a test of such a name against
+        # None is decided
+        held = set()
+        par = getattr(g, "_parent", None)
+        if isinstance(par, ast.Assign):
+            held |= {t.id for t in par.targets if isinstance(t, ast.Name)}
+        grew = True
+        while grew:
+            grew = False
+            for x in ast.walk(fd):
+                if isinstance(x, ast.Assign) and isinstance(x.value, ast.Name) and x.value.id in held:
+                    for t in x.targets:
+                        if isinstance(t, ast.Name) and t.id not in held:
+                            # (a name that is also bound to None on the rejection path still holds the datagram on this one)
+                            held.add(t.id)
+                            grew = True
+        seen, work = {gn.id}, [gn]
+        while work:
+            n_ = work.pop()
+            for (s_, lab) in n_.succ:
+                if lab == "exc" or s_.id in seen or s_.id in send_ids:
+                    continue
+                if n_.kind == "cond" and n_ is not gn:
+                    t_ = n_.ast.test
+                    if isinstance(t_, ast.Compare) and len(t_.ops) == 1 and isinstance(t_.left, ast.Name) and t_.left.id in held \
+                            and isinstance(t_.comparators[0], ast.Constant) and t_.comparators[0].value is None:
+                        is_none_edge = (isinstance(t_.ops[0], (ast.Is, ast.Eq)) and lab is True) or (isinstance(t_.ops[0], (ast.IsNot, ast.NotEq)) and lab is False)
+                        if is_none_edge:
+                            continue
+                seen.add(s_.id)
+                work.append(s_)
         L.ob("C13.R4", F2, fn, "a message that encoded without error is sent on every path (nothing between gen_msg() and the send can skip it)",
-             "the send post-dominates the successful encode", "an exit is reachable without sending" if cfg.exit.id in r_ else "post-dominates",
-             cfg.exit.id not in r_, g.lineno)
+             "the send post-dominates the successful encode", "an exit is reachable without sending" if cfg.exit.id in seen else "post-dominates",
+             cfg.exit.id not in seen, g.lineno)
     for g in gens:
         gn = cfg.node_of(g)
         L.ob("C13.R4", F2, fn, "gen_msg() is called inside the try block", "inside try", len(gn.trys),
